@@ -19,6 +19,7 @@
 //   - defer of any of these; return statements;
 //   - KUnsupported for go statements, goto, calls through function values,
 //     function literals and defers inside loops that contain any of the above.
+//
 // Everything nested in if / for / switch / select (including their init and
 // condition parts) is flagged conditional.
 package main
@@ -76,11 +77,46 @@ func (i *imp) Import(path string) (*types.Package, error) {
 		i.cache[path] = p
 		return p, nil
 	}
+	// a third-party module: look it up in the module cache (any version)
+	if d := modCacheDir(path); d != "" {
+		files, err := parseDir(i.fset, d)
+		if err == nil && len(files) > 0 {
+			conf := types.Config{Importer: i, Error: func(error) {}}
+			if p, _ := conf.Check(path, i.fset, files, nil); p != nil {
+				i.cache[path] = p
+				return p, nil
+			}
+		}
+	}
 	// unknown import: an empty complete package (uses of it fail to resolve and are ignored)
 	p := types.NewPackage(path, filepath.Base(path))
 	p.MarkComplete()
 	i.cache[path] = p
 	return p, nil
+}
+
+// modCacheDir finds <GOMODCACHE>/<module>@<version>/<rest> for an import path.
+func modCacheDir(path string) string {
+	root := os.Getenv("GOMODCACHE")
+	if root == "" {
+		gp := os.Getenv("GOPATH")
+		if gp == "" {
+			gp = filepath.Join(os.Getenv("HOME"), "go")
+		}
+		root = filepath.Join(gp, "pkg", "mod")
+	}
+	parts := strings.Split(path, "/")
+	for n := len(parts); n >= 1; n-- {
+		m, _ := filepath.Glob(filepath.Join(root, filepath.Join(parts[:n]...)+"@*"))
+		sort.Strings(m)
+		for k := len(m) - 1; k >= 0; k-- {
+			d := filepath.Join(m[k], filepath.Join(parts[n:]...))
+			if st, err := os.Stat(d); err == nil && st.IsDir() {
+				return d
+			}
+		}
+	}
+	return ""
 }
 
 func parseDir(fset *token.FileSet, dir string) ([]*ast.File, error) {
@@ -413,6 +449,7 @@ func main() {
 	dir := flag.String("dir", "/repo/io", "package directory to translate")
 	repo := flag.String("repo", "/repo", "root of github.com/flowmatters/openwater-core")
 	h5 := flag.String("hdf5dir", "/verif/harness/fakehdf5", "source of gonum.org/v1/hdf5 used for type checking")
+	verbose := flag.Bool("v", false, "print type-check errors")
 	flag.Parse()
 
 	fset := token.NewFileSet()
@@ -427,6 +464,16 @@ func main() {
 	var terrs []string
 	conf := types.Config{Importer: im, Error: func(e error) { terrs = append(terrs, e.Error()) }}
 	pkg, _ := conf.Check(repoPath+"/"+filepath.Base(*dir), fset, files, info)
+	if *verbose {
+		for _, e := range terrs {
+			fmt.Fprintln(os.Stderr, "callgraph: type error:", e)
+		}
+	}
+	if len(terrs) > 0 {
+		// an unresolved call could hide an HDF5 call site: refuse to emit a graph
+		fmt.Fprintf(os.Stderr, "callgraph: %d type errors in %s (first: %s); the package does not compile\n", len(terrs), *dir, terrs[0])
+		os.Exit(3)
+	}
 	if pkg == nil {
 		fmt.Fprintln(os.Stderr, "callgraph: type check failed")
 		os.Exit(2)
